@@ -35,6 +35,8 @@ def _residual_ob(ctx, rule, c, R, ref, where, detail):
     asd = R.result[1]
     worst = None
     for path, leaf in pv_leaves(arg):
+        if isinstance(leaf, Mismatch):
+            ctx.violated(rule, c, (f"on the path [{path_text(path)}]: " if path else "") + leaf.why, where); return None
         leaf = _strip(leaf)
         st_, why = compare(leaf, ref, seed=ctx.seed)
         if st_ != HOLDS:
@@ -47,7 +49,7 @@ def _residual_ob(ctx, rule, c, R, ref, where, detail):
     # returned amplitude is the (absolute) square root of that residual
     ok = True
     for (p1, a), (p2, r) in zip(pv_leaves(arg), pv_leaves(asd)):
-        if not isinstance(r, X): ok = False; break
+        if not isinstance(r, X) or not isinstance(a, X): ok = False; break
         try:
             if not (r.eq(a.sqrt().abs()) or r.eq(a.sqrt())): ok = False
         except Unknown:
